@@ -21,8 +21,9 @@
 (*                                                                         *)
 (* Scalars are abstract: a scalar kind stands for a short text over the    *)
 (* character classes the writers distinguish                                *)
-(*   "a" ASCII word char, "s" space, "n" LF, "N" NEL / LS / PS,            *)
-(*   "u" printable non-ASCII, "x" a character that must be escaped,        *)
+(*   "a" ASCII word char, "s" space, "n" LF, "N" NEL, "L" LS / PS,         *)
+(*   "u" printable non-ASCII up to U+00FF, "v" other printable BMP,        *)
+(*   "U" astral, "x" a character that must be escaped, "q" a double quote, *)
 (*   "i" a leading indicator character                                     *)
 (* and the five writers are transcribed over those classes.                *)
 (* None is -1 for the integer options and "N" for the others.              *)
@@ -35,6 +36,10 @@ G == INSTANCE EventGrammar
 CONSTANTS Indents, Widths, LineBreaks, Encodings, Streams, ExplStart, ExplEnd, Versions, TagSets, Canon, Unicode, Apis,
           ScalarKinds,    \* subset of the kinds of Text below
           CollKinds,      \* subset of {"BS", "FS", "BM", "FM"}: block / flow sequence / mapping
+          LongClasses,    \* long lexemes: character classes ("a", "v", "U", "x", "q") ...
+          LongLens,       \* ... their lengths (around the emitter's 128 and the scanner's 1024) ...
+          LongStyles,     \* ... and the styles requested for them ("P" none, "S" single-quoted, "D" double-quoted)
+          FixD12,         \* BOOLEAN: check_simple_key also bounds the WRITTEN length of the key (fix_proposals/D12.diff)
           Anchors,        \* BOOLEAN: the first node of a document may carry an anchor, later nodes may be aliases
           ExplicitTags,   \* BOOLEAN: nodes may carry a tag that is not implicit
           MaxEvents, MaxDepth, MaxDocs
@@ -47,7 +52,7 @@ vars == <<opt, em, gen, evs>>
 
 Last(s) == s[Len(s)]
 Front(s) == SubSeq(s, 1, Len(s) - 1)
-Brk == {"n", "N"}
+Brk == {"n", "N", "L"}
 
 (***************************************************************************)
 (* options: what the caller passes -> what the emitter uses                *)
@@ -118,7 +123,12 @@ Text(k) == CASE k = "w" -> <<"a">>                         \* a word
              [] k = "f" -> Words \o <<"n">>                \* folded style requested
              [] k = "g" -> <<"a", "n", "n">>               \* literal style requested, keep (+) chomping
              [] k = "h" -> <<"a", "n", "a">>               \* literal style requested, strip (-) chomping: no final break
+             [] k = "l" -> <<"a", "L", "a">>               \* LS / PS inside
 StyleReq(k) == CASE k \in {"b", "g", "h"} -> "|" [] k = "f" -> ">" [] OTHER -> ""
+\* a long lexeme (macro-symbol): n characters of one class, with a requested style
+IsLong(ev) == ev.n > 0
+TextOf(ev) == IF IsLong(ev) THEN Rep(ev.s, ev.n) ELSE Text(ev.s)
+StyleOf(ev) == IF IsLong(ev) THEN (CASE ev.y = "S" -> "'" [] ev.y = "D" -> "\"" [] OTHER -> "") ELSE StyleReq(ev.s)
 \* implicit = (plain resolves to the tag, non-plain resolves to the tag) as the Serializer computes them for str values
 Imp0(ev) == ~ev.t /\ ev.s # "e"
 Imp1(ev) == ~ev.t /\ ev.s # "z"
@@ -128,12 +138,12 @@ AnchorLen == 6                                             \* "&id001"
 Analyze(t, au) ==
   LET n == Len(t)
       lineBreaks == \E i \in 1 .. n : t[i] \in Brk
-      special == \E i \in 1 .. n : t[i] = "x" \/ (t[i] \in {"u", "N"} /\ ~au)
+      special == \E i \in 1 .. n : t[i] \in {"x", "N"} \/ (t[i] \in {"u", "v", "U", "L"} /\ ~au)      \* NEL is always special
       leadS == n > 0 /\ t[1] = "s"          leadB == n > 0 /\ t[1] \in Brk
       trailS == n > 0 /\ t[n] = "s"         trailB == n > 0 /\ t[n] \in Brk
       breakSpace == \E i \in 1 .. n - 1 : t[i] \in Brk /\ t[i + 1] = "s"
       spaceBreak == \E i \in 1 .. n - 1 : t[i] = "s" /\ t[i + 1] \in Brk
-      indic == n > 0 /\ t[1] = "i"
+      indic == n > 0 /\ t[1] \in {"i", "q"}
       ws == leadS \/ leadB \/ trailS \/ trailB
       dq == spaceBreak \/ special
   IN  IF n = 0 THEN [empty |-> TRUE, multiline |-> FALSE, flowPlain |-> FALSE, blockPlain |-> TRUE, single |-> TRUE, block |-> FALSE]
@@ -148,7 +158,7 @@ Analyze(t, au) ==
 (***************************************************************************)
 NewLine == [ind |-> 0, started |-> FALSE, cls |-> <<>>]
 AddCls(cs, c) == IF \E i \in DOMAIN cs : cs[i] = c THEN cs ELSE Append(cs, c)
-ClassOf(c) == CASE c \in {"a", "i", "s"} -> "ascii" [] c = "u" -> "uni" [] c = "x" -> "ctrl" [] OTHER -> "brk?"
+ClassOf(c) == CASE c \in {"a", "i", "s", "q"} -> "ascii" [] c \in {"u", "v", "U"} -> "uni" [] c = "x" -> "ctrl" [] OTHER -> "brk?"
 
 \* n characters of one class, "sp" = spaces; leading spaces are the line's indentation; col says whether self.column moves
 PutC(r, n, cls, col) ==
@@ -246,19 +256,21 @@ SingleLoop(r, t, split, bw, s, e, spaces, breaks) ==
 WriteSingle(r, t, split, bw) ==
   Indicator(SingleLoop(Indicator(r, 1, TRUE, FALSE, FALSE), t, split, bw, 1, 1, FALSE, FALSE), 1, FALSE, FALSE, FALSE)
 
-\* length of the escape sequence of a character class: \n \N \a ; \xE9
-EscLen(c) == IF c = "u" THEN 4 ELSE 2
+\* does write_double_quoted escape the class?  (astral characters even under allow_unicode)
+Escaped(c, au) == c \in {"n", "N", "L", "x", "q", "U"} \/ (c \in {"u", "v"} /\ ~au)
+\* length of the escape sequence of a character class: \n \N \L \a \" ; \xE9 ; \u0436 ; \U0001F600
+EscLen(c) == CASE c = "u" -> 4 [] c = "v" -> 6 [] c = "U" -> 10 [] OTHER -> 2
 RECURSIVE DoubleLoop(_, _, _, _, _, _, _)
 DoubleLoop(r, t, split, bw, au, s, e) ==
   IF e > Len(t) + 1 THEN r
   ELSE LET ch == Ch(t, e)
-           esc == ch = "END" \/ ch \in {"n", "N", "x"} \/ (ch = "u" /\ ~au)
+           esc == ch = "END" \/ Escaped(ch, au)
            \* flush + escape
            r1 == IF esc THEN (IF s < e THEN PutText(r, t, s, e - 1) ELSE r) ELSE r
            s1 == IF esc THEN (IF s < e THEN e ELSE s) ELSE s
            r2 == IF esc /\ ch # "END" THEN Put(r1, EscLen(ch), "ascii") ELSE r1
            s2 == IF esc /\ ch # "END" THEN e + 1 ELSE s1
-           fold == 1 < e /\ e < Len(t) /\ (ch = "s" \/ s2 >= e) /\ r2.col + (e - s2) > bw /\ split
+           fold == 1 < e /\ e < Len(t) /\ (ch = "s" \/ (s2 >= e /\ Ch(t, s2) # "s")) /\ r2.col + (e - s2) > bw /\ split
            r3 == IF fold THEN Put(IF s2 < e THEN PutText(r2, t, s2, e - 1) ELSE r2, 1, "ascii") ELSE r2      \* text[start:end] + '\'
            s3 == IF fold /\ s2 < e THEN e ELSE s2
            r4 == IF fold THEN [WriteIndent(r3) EXCEPT !.ws = FALSE, !.indn = FALSE] ELSE r3
@@ -309,7 +321,7 @@ FoldedLoop(r, t, bw, s, e, lead, spaces, breaks) ==
          ELSE FoldedLoop(r, t, bw, s, e + 1, lead, sp2, br2)
        ELSE IF spaces THEN
          IF ch # "s"
-         THEN FoldedLoop(IF s + 1 = e /\ r.col > bw THEN WriteIndent(r) ELSE PutText(r, t, s, e - 1), t, bw, e, e + 1, lead, sp2, br2)
+         THEN FoldedLoop(IF s + 1 = e /\ r.col > bw /\ ~lead THEN WriteIndent(r) ELSE PutText(r, t, s, e - 1), t, bw, e, e + 1, lead, sp2, br2)
          ELSE FoldedLoop(r, t, bw, s, e + 1, lead, sp2, br2)
        ELSE IF ch = "END" \/ ch = "s" \/ ch \in Brk
             THEN LET r1 == PutText(r, t, s, e - 1)
@@ -324,7 +336,7 @@ WriteFolded(r, t, bi, bw) ==
 (***************************************************************************)
 (* the emitter: events, queue, contexts                                    *)
 (***************************************************************************)
-NoEv == [k |-> "-", f |-> FALSE, s |-> "-", a |-> FALSE, t |-> FALSE]
+NoEv == [k |-> "-", f |-> FALSE, s |-> "-", a |-> FALSE, t |-> FALSE, n |-> 0, y |-> "P"]
 Event(k) == [NoEv EXCEPT !.k = k]
 IsColl(ev) == ev.k \in {"SequenceStart", "MappingStart"}
 IsCollEnd(ev) == ev.k \in {"SequenceEnd", "MappingEnd"}
@@ -357,19 +369,26 @@ PopIndent(r) == IF r.indents = <<>> THEN [r EXCEPT !.crash = TRUE] ELSE [r EXCEP
 
 CheckEmptySequence(ev, nx) == ev.k = "SequenceStart" /\ nx.k = "SequenceEnd"
 CheckEmptyMapping(ev, nx)  == ev.k = "MappingStart" /\ nx.k = "MappingEnd"
-CheckEmptyDocument(nx)     == nx.k = "Scalar" /\ nx.s = "z" /\ ~nx.a
 HasTag(ev) == ~(ev.k = "Scalar" /\ ev.s = "z")                \* every other node event carries a tag, as the Serializer's do
+CheckEmptyDocument(nx)     == nx.k = "Scalar" /\ ~nx.a /\ (~HasTag(nx) \/ Imp0(nx)) /\ TextOf(nx) = <<>>
+\* the simple-key limit of the library's reader: a key whose ':' comes more than 1024 characters after its start (or on
+\* another line) is not a simple key (scanner.py stale_possible_simple_keys)
+ReaderLimit == 1024
+\* an upper bound of what a scalar occupies when written in any flow style: quotes + the longest form of every character
+RECURSIVE WrittenBound(_, _, _)
+WrittenBound(t, i, au) == IF i > Len(t) THEN 2 ELSE (IF Escaped(t[i], au) THEN EscLen(t[i]) ELSE 1) + WrittenBound(t, i + 1, au)
 CheckSimpleKey(r, ev, nx) ==
   LET len == (IF ev.a \/ ev.k = "Alias" THEN AnchorLen - 1 ELSE 0)
              + (IF ev.k # "Alias" /\ HasTag(ev) THEN TagLen ELSE 0)
-             + (IF ev.k = "Scalar" THEN Len(Text(ev.s)) ELSE 0)
-      an == Analyze(Text(ev.s), r.au)
-  IN  len < 128 /\ (ev.k = "Alias" \/ (ev.k = "Scalar" /\ ~an.empty /\ ~an.multiline)
+             + (IF ev.k = "Scalar" THEN Len(TextOf(ev)) ELSE 0)
+      an == Analyze(TextOf(ev), r.au)
+      written == IF ev.k = "Scalar" THEN len - Len(TextOf(ev)) + WrittenBound(TextOf(ev), 1, r.au) ELSE len
+  IN  len < 128 /\ (FixD12 => written <= 1000) /\ (ev.k = "Alias" \/ (ev.k = "Scalar" /\ ~an.empty /\ ~an.multiline)
                     \/ CheckEmptySequence(ev, nx) \/ CheckEmptyMapping(ev, nx))
 
 ChooseScalarStyle(r, ev) ==
-  LET an == Analyze(Text(ev.s), r.au)  req == StyleReq(ev.s) IN
-  IF r.canon THEN "\""
+  LET an == Analyze(TextOf(ev), r.au)  req == StyleOf(ev) IN
+  IF r.canon \/ req = "\"" THEN "\""
   ELSE IF req = "" /\ Imp0(ev) /\ ~(r.skey /\ (an.empty \/ an.multiline))
           /\ ((r.flow > 0 /\ an.flowPlain) \/ (r.flow = 0 /\ an.blockPlain)) THEN ""
   ELSE IF req \in {"|", ">"} /\ r.flow = 0 /\ ~r.skey /\ an.block THEN req
@@ -392,9 +411,9 @@ ProcessTag(r, ev) ==
 
 ProcessScalar(r, ev) ==
   LET style == ChooseScalarStyle(r, ev)
-      t == Text(ev.s)
+      t == TextOf(ev)
       split == ~r.skey
-      r1 == Tok(r, "SCALAR", ev.s, "")
+      r1 == Tok(r, "SCALAR", IF IsLong(ev) THEN <<ev.s, ev.n>> ELSE ev.s, "")
   IN  CASE style = "\"" -> WriteDouble(r1, t, split, r.bw, r.au)
         [] style = "'"  -> WriteSingle(r1, t, split, r.bw)
         [] style = ">"  -> WriteFolded(r1, t, r.bi, r.bw)
@@ -417,6 +436,10 @@ ExpectNode(r0, ev, nx, root, seq, map, skey) ==
             THEN Goto(IncreaseIndent([Tok(Indicator(r1, 1, TRUE, TRUE, FALSE), "LBR", "", "") EXCEPT !.flow = @ + 1], TRUE, FALSE),
                       "first_flow_mapping_key")
             ELSE Goto(IncreaseIndent(r1, FALSE, FALSE), "first_block_mapping_key")
+
+\* a simple key begins here (after the space write_indicator / write_plain would insert) ... and its ':' comes here
+KeyStart(r) == [r EXCEPT !.kcol = r.col + (IF r.ws THEN 0 ELSE 1), !.kline = r.line]
+KeyEnd(r) == [r EXCEPT !.skeys = Append(@, [len |-> r.col - r.kcol, same |-> r.line = r.kline])]
 
 (***************************************************************************)
 (* the methods (each works on self.event = Ev(r), which Apply then pops)   *)
@@ -474,12 +497,12 @@ FlowMappingKey(r, first) ==
   ELSE LET r1 == IF first THEN r ELSE Tok(Indicator(r, 1, FALSE, FALSE, FALSE), "COMMA", "", "")
            r2 == IF r.canon \/ r1.col > r.bw THEN WriteIndent(r1) ELSE r1
        IN  IF ~r.canon /\ CheckSimpleKey(r2, ev, Nxt(r))
-           THEN ExpectNode(PushState(r2, "flow_mapping_simple_value"), ev, Nxt(r), FALSE, FALSE, TRUE, TRUE)
+           THEN ExpectNode(PushState(KeyStart(r2), "flow_mapping_simple_value"), ev, Nxt(r), FALSE, FALSE, TRUE, TRUE)
            ELSE ExpectNode(PushState(Tok(Indicator(r2, 1, TRUE, FALSE, FALSE), "QM", "", ""), "flow_mapping_value"),
                            ev, Nxt(r), FALSE, FALSE, TRUE, FALSE)
 
 FlowMappingSimpleValue(r) ==
-  ExpectNode(PushState(Indicator(r, 1, FALSE, FALSE, FALSE), "flow_mapping_key"), Ev(r), Nxt(r), FALSE, FALSE, TRUE, FALSE)
+  ExpectNode(PushState(Indicator(KeyEnd(r), 1, FALSE, FALSE, FALSE), "flow_mapping_key"), Ev(r), Nxt(r), FALSE, FALSE, TRUE, FALSE)
 FlowMappingValue(r) ==
   LET r1 == IF r.canon \/ r.col > r.bw THEN WriteIndent(r) ELSE r
   IN  ExpectNode(PushState(Tok(Indicator(r1, 1, TRUE, FALSE, FALSE), "COLON", "", ""), "flow_mapping_key"),
@@ -494,12 +517,12 @@ BlockMappingKey(r, first) ==
   IF ~first /\ Ev(r).k = "MappingEnd" THEN PopState(PopIndent(r))
   ELSE LET r1 == WriteIndent(r) IN
        IF CheckSimpleKey(r1, Ev(r), Nxt(r))
-       THEN ExpectNode(PushState(Entry(r1, "key"), "block_mapping_simple_value"), Ev(r), Nxt(r), FALSE, FALSE, TRUE, TRUE)
+       THEN ExpectNode(PushState(KeyStart(Entry(r1, "key")), "block_mapping_simple_value"), Ev(r), Nxt(r), FALSE, FALSE, TRUE, TRUE)
        ELSE ExpectNode(PushState(Indicator(Entry(r1, "?"), 1, TRUE, FALSE, TRUE), "block_mapping_value"),
                        Ev(r), Nxt(r), FALSE, FALSE, TRUE, FALSE)
 
 BlockMappingSimpleValue(r) ==
-  ExpectNode(PushState(Indicator(r, 1, FALSE, FALSE, FALSE), "block_mapping_key"), Ev(r), Nxt(r), FALSE, FALSE, TRUE, FALSE)
+  ExpectNode(PushState(Indicator(KeyEnd(r), 1, FALSE, FALSE, FALSE), "block_mapping_key"), Ev(r), Nxt(r), FALSE, FALSE, TRUE, FALSE)
 BlockMappingValue(r) ==
   ExpectNode(PushState(Indicator(WriteIndent(r), 1, TRUE, FALSE, TRUE), "block_mapping_key"), Ev(r), Nxt(r), FALSE, FALSE, TRUE, FALSE)
 
@@ -511,11 +534,12 @@ NodeEvents(g) ==
   LET first == Top(g) = "D0"                           \* the root node: may carry the document's anchor
       as == IF Anchors /\ first THEN BOOLEAN ELSE {FALSE}
       ts == IF ExplicitTags THEN BOOLEAN ELSE {FALSE}
-  IN  {[k |-> "Scalar", f |-> FALSE, s |-> s, a |-> FALSE, t |-> t] : s \in ScalarKinds \ {"z"}, t \in ts}
-      \cup {[k |-> "Scalar", f |-> FALSE, s |-> "z", a |-> FALSE, t |-> FALSE] : s \in ScalarKinds \cap {"z"}}
+  IN  {[k |-> "Scalar", f |-> FALSE, s |-> s, a |-> FALSE, t |-> t, n |-> 0, y |-> "P"] : s \in ScalarKinds \ {"z"}, t \in ts}
+      \cup {[k |-> "Scalar", f |-> FALSE, s |-> "z", a |-> FALSE, t |-> FALSE, n |-> 0, y |-> "P"] : s \in ScalarKinds \cap {"z"}}
+      \cup {[k |-> "Scalar", f |-> FALSE, s |-> c, a |-> FALSE, t |-> t, n |-> n, y |-> y] : c \in LongClasses, n \in LongLens, y \in LongStyles, t \in ts}
       \cup (IF g.anch THEN {Event("Alias")} ELSE {})
       \cup (IF Len(g.mon) - 2 >= MaxDepth THEN {}
-            ELSE {[k |-> IF c \in {"BS", "FS"} THEN "SequenceStart" ELSE "MappingStart", f |-> c \in {"FS", "FM"}, s |-> "-", a |-> a, t |-> t]
+            ELSE {[k |-> IF c \in {"BS", "FS"} THEN "SequenceStart" ELSE "MappingStart", f |-> c \in {"FS", "FM"}, s |-> "-", a |-> a, t |-> t, n |-> 0, y |-> "P"]
                   : c \in CollKinds, a \in as, t \in ts})
 Closing(g) == CASE Top(g) = "S"  -> {Event("StreamEnd")}
                 [] Top(g) = "D0" -> {[Event("Scalar") EXCEPT !.s = "w"]}
@@ -579,7 +603,7 @@ Init == /\ opt \in Options
                  line |-> 0, col |-> 0, ws |-> TRUE, indn |-> TRUE, open |-> FALSE,
                  bi |-> BestIndent(opt), bw |-> BestWidth(opt), canon |-> opt.canon, au |-> opt.au,
                  enc |-> "N", bom |-> "none", cur |-> NewLine, lines |-> <<>>, entries |-> <<>>, marks |-> <<>>, ctoks |-> <<>>,
-                 crash |-> FALSE, act |-> "-"]
+                 kcol |-> 0, kline |-> 0, skeys |-> <<>>, crash |-> FALSE, act |-> "-"]
         /\ gen = [mon |-> <<"S">>, n |-> 0, docs |-> 0, anch |-> FALSE]
         /\ evs = <<>>
 
@@ -623,10 +647,16 @@ Wanted ==
         LET e == s[i] IN
         [k |-> e.k, a |-> IF e.a \/ e.k = "Alias" THEN "x" ELSE "",
          t |-> IF e.k \in {"Scalar", "SequenceStart", "MappingStart"} /\ HasTag(e) THEN TagName(e) ELSE "",
-         v |-> IF e.k = "Scalar" THEN e.s ELSE ""]]
+         v |-> IF e.k = "Scalar" THEN (IF IsLong(e) THEN <<e.s, e.n>> ELSE e.s) ELSE ""]]
 HG == (Done /\ opt.canon) => C!Denotes(em.ctoks, Wanted)
 \* L's own bookkeeping is consistent with what it wrote: an entry that is first on its line sits at the line's indentation
 EntriesConsistent == Done => \A i \in DOMAIN em.entries : LET e == em.entries[i] IN
                         e.line \in DOMAIN Rendered(em) /\ Rendered(em)[e.line].ind = e.ind /\ (e.first => e.col = e.ind)
+\* the part of clause (a) that the layout decides: every key L wrote as a simple key is one the library's reader can still
+\* recognise as a simple key.  NOT an invariant of the code without the D12 repair (a key of 103..122 astral characters
+\* written as \UXXXXXXXX escapes is a counterexample): the harness takes em.skeys from the dump, replays every state and lets
+\* the real readers decide; with FixD12 it is checked as an invariant.
+KeysReadable == \A i \in DOMAIN em.skeys : em.skeys[i].same /\ em.skeys[i].len <= ReaderLimit
+HA == FixD12 => KeysReadable
 Complete == Done => (em.states = <<>> /\ em.indents = <<>> /\ em.indent = -1 /\ em.flow = 0 /\ gen.mon = <<"END">>)
 =============================================================================
